@@ -62,6 +62,13 @@ def lines_for(spec, rep, want=("geom", "pic", "scale", "layout", "size")):
         try:
             with time_limit(60):
                 tl = TG.construct(spec, backend)
+                if spec.get("_intruder"):
+                    # another, unrelated timeline is constructed (not exported) between this one's construction and its export — what this
+                    # one draws is determined by its own data and options
+                    try:
+                        TG.construct(spec["_intruder"], backend)
+                    except Exception:
+                        pass
                 docs[backend] = TG.export(tl)
             tls[backend] = tl
             captured[backend] = I._state["layers"]
@@ -231,6 +238,7 @@ def body(pid, tier, seed, rep, only_prop=False, scale=1):
     want = {"C07": ("geom", "scale", "layout", "size", "pipe"), "C08": ("geom", "layout", "pipe"), "C09": ("pic", "geom")}[pid]
     lines, metas = [], []
     ndy = common.count(tier, 150, 2500) * scale if "pipe" in want else 0
+    prev_spec = None
     for k in range(n + ndy):
         spec = TG.gen_spec(rng, tier) if k < n else TG.gen_dyadic_spec(rng)
         if k >= n:
@@ -248,6 +256,10 @@ def body(pid, tier, seed, rep, only_prop=False, scale=1):
             o["layerGap"] = rng.choice([1, 3, 6, 10, 25.5, 60])
             o["direction"] = rng.choice(["up", "down", "left", "right"])
             rep.count("crowded-variant")
+        if k % 3 == 1 and k < n and prev_spec is not None and pid in ("C07", "C08"):
+            spec["_intruder"] = {kk: vv for kk, vv in prev_spec.items() if kk != "_intruder"}
+            rep.count("with-intruder-timeline")
+        prev_spec = spec
         if pid == "C08":
             spec["options"].setdefault("labella", {})
             if spec["options"]["labella"].get("nodeSpacing", 3) < 3:
